@@ -826,29 +826,31 @@ pub fn rb(name: &str, b: &[u8], n: usize, ours: &Result<usize, Error>, line: &st
                             let j = s[i..].find(b).map(|j| i + j).unwrap_or(s.len());
                             s[i..j].to_string()
                         };
+                        let mut bad: Vec<&str> = vec![];
                         if cut(last_ours, "tx(", ",pre=") != cut(last_want, "tx(", ",pre=") {
-                            return Err("FAIL:tx-fields(view/version/locktime)".into());
+                            bad.push("tx-fields(view/version/locktime)");
                         }
-                        if cut(last_ours, ",pre=", ",w=") != cut(last_want, ",pre=", ",w=") {
-                            return Err("FAIL:tx-preimage".into());
+                        let obj = obj_of_line(line);
+                        if cut(last_ours, ",pre=", ",w=") != cut(last_want, ",pre=", ",w=")
+                            || cut(obj, ",pre=", ",w=") != cut(last_want, ",pre=", ",w=")
+                        {
+                            bad.push("tx-preimage");
                         }
-                        if cut(last_ours, ",w=", ")") != cut(last_want, ",w=", ")") {
-                            return Err("FAIL:tx-weight".into());
+                        if cut(last_ours, ",w=", ")") != cut(last_want, ",w=", ")")
+                            || cut(obj, ",w=", ",txid=") != cut(last_want, ",w=", ")")
+                        {
+                            bad.push("tx-weight");
                         }
                         if serialize(&tx) != &b[..k] {
-                            return Err("FAIL:tx-reserialize".into());
+                            bad.push("tx-reserialize");
                         }
                         // C10: txid from both backends == rust-bitcoin's
-                        let obj = obj_of_line(line);
                         let want_txid = hex(&tx.compute_txid().to_byte_array());
                         if cut(obj, ",txid=", ")") != want_txid {
-                            return Err("FAIL:txid".into());
+                            bad.push("txid");
                         }
-                        if cut(obj, ",w=", ",txid=") != cut(last_want, ",w=", ")") {
-                            return Err("FAIL:tx-weight".into());
-                        }
-                        if cut(obj, ",pre=", ",w=") != cut(last_want, ",pre=", ",w=") {
-                            return Err("FAIL:tx-preimage".into());
+                        if !bad.is_empty() {
+                            return Err(format!("FAIL:{}", bad.join("+")));
                         }
                     }
                     (Err(e), Err(o)) => errclass(&e, o)?,
@@ -963,7 +965,7 @@ pub fn redb_line(ctx: &Ctx, ty: &str, b: &[u8]) -> String {
     use bitcoin_slices::redb::{RedbKey, RedbValue};
     let bb = B::of(b);
     macro_rules! rt {
-        ($T:ty, $parse:expr, $f:path, $fw:expr, $table:expr) => {{
+        ($T:ty, $RB:ty, $parse:expr, $f:path, $fw:expr, $table:expr) => {{
             match $parse {
                 Ok(pr) => {
                     let o = pr.parsed_owned();
@@ -1023,17 +1025,23 @@ pub fn redb_line(ctx: &Ctx, ty: &str, b: &[u8]) -> String {
                         line
                     }
                 }
-                Err(_) => "redb r=unparsed".to_string(),
+                Err(_) => {
+                    if ctx.oracles && deserialize_partial::<$RB>(b).map(|(_, k)| k == b.len()).unwrap_or(false) {
+                        "redb r=unparsed #redb=FAIL:valid-stored-object-is-rejected(from_bytes-would-panic)".to_string()
+                    } else {
+                        "redb r=unparsed".to_string()
+                    }
+                }
             }
         }};
     }
     let _ = <bsl::OutPoint as RedbKey>::compare;
     match ty {
-        "outpoint" => rt!(bsl::OutPoint, bsl::OutPoint::parse(b), fmt::outpoint_f, Some(36), "op"),
-        "txout" => rt!(bsl::TxOut, bsl::TxOut::parse(b), fmt::txout_f, None, "txout"),
-        "txouts" => rt!(bsl::TxOuts, bsl::TxOuts::parse(b), fmt::txouts_f, None, "txouts"),
+        "outpoint" => rt!(bsl::OutPoint, bitcoin::OutPoint, bsl::OutPoint::parse(b), fmt::outpoint_f, Some(36), "op"),
+        "txout" => rt!(bsl::TxOut, bitcoin::TxOut, bsl::TxOut::parse(b), fmt::txout_f, None, "txout"),
+        "txouts" => rt!(bsl::TxOuts, Vec<bitcoin::TxOut>, bsl::TxOuts::parse(b), fmt::txouts_f, None, "txouts"),
         "tx" => {
-            let line = rt!(bsl::Transaction, bsl::Transaction::parse(b), fmt::tx_fh, None, "tx");
+            let line = rt!(bsl::Transaction, bitcoin::Transaction, bsl::Transaction::parse(b), fmt::tx_fh, None, "tx");
             if ctx.oracles && b.len() < 4_000_000 {
                 // a transaction rebuilt from its stored bytes: txid and weight against rust-bitcoin (C10, C16)
                 let v = match (bsl::Transaction::parse(b), deserialize_partial::<bitcoin::Transaction>(b)) {
